@@ -392,6 +392,14 @@ def run_scenario(sc):
     except Exception as e:  # noqa
         res["merge_exc"] = exc_kind(e)
     res["slots"] = [observe(wt, n) for n in names]
+    # the texts the merge actually saw (the repository's, not the ones written to disk)
+    try:
+        orepo = wt.branch.repository if (sc["via"] == "merger" and not res["merge_exc"]) else owt.branch.repository
+        bt, ot = wt.branch.repository.revision_tree(base_rev), orepo.revision_tree(other_rev)
+        with bt.lock_read(), ot.lock_read():
+            res["stored"] = [(bt.get_file_text(n), ot.get_file_text(n)) for n in names]
+    except Exception as e:  # noqa
+        res["stored"] = None
     res["extra_files"] = sorted(x for x in os.listdir(root)
                                 if x not in (".bzr", ".git") and x.split(".")[0] not in names)
     for n, (action, pre), slot in zip(names, sc["actions"], res["slots"]):
@@ -470,6 +478,17 @@ def evaluate(ctx, sc, res):
     both = sc["reprocess"] and sc["show_base"]
     per_file = []
     need_text_merge = False
+    if res.get("stored"):
+        # a repository that hands out a text different from the one committed is a defect of
+        # another property (C03: fetch/commit fidelity); C19 is evaluated on the texts the merge saw
+        fixed = []
+        for (b, t, o), (sb, so) in zip(sc["triples"], res["stored"]):
+            if (sb, so) != (b, o):
+                ctx.count("repository-text-differs-from-committed(C03)")
+                ctx.extra.setdefault("repository_text_differs", []).append(
+                    dict(fmt=sc["fmt"], via=sc["via"], committed=[b.hex(), o.hex()], stored=[sb.hex(), so.hex()]))
+            fixed.append((sb, t, so))
+        sc = dict(sc, triples=fixed)
     for i, (b, t, o) in enumerate(sc["triples"]):
         bl, tl, ol = split_lines(b), split_lines(t), split_lines(o)
         regs, out = regions_for(bl, tl, ol, sc["reprocess"], sc["cherrypick"])
